@@ -2043,6 +2043,9 @@ func (c *fctx) expr(e ast.Expr) string {
 				c.addOpq(opq{name: name, typ: c.coqTy(t, x.Pos())}, x.Pos())
 				return name
 			}
+			if isInterface(o.Type()) && !isErrorType(o.Type()) {
+				c.fail(x.Pos(), "use of the interface value %s other than as the receiver of an opaque method call or as an argument passed on", x.Name)
+			}
 			c.fail(x.Pos(), "package-level variable %s (not constant; declare it opaque to pass it as a parameter)", x.Name)
 		case *types.Nil:
 			c.fail(x.Pos(), "nil")
